@@ -96,21 +96,26 @@ PROPS["C14"]["runs"] = PROPS["C14"]["runs"] + [
 PROPS["C14"]["bounds"] = {"quick": PROPS["C02"]["bounds"]["quick"] + "; Linux routes n,m<=2", "thorough": PROPS["C02"]["bounds"]["thorough"] + "; Linux routes n,m<=3"}
 
 ASA_ACL = M + "/pkg/asa.VerifASAACL"
+ASA_GRAPH = M + "/pkg/asa.VerifASAGraph"
+_graph_run = {"entry": ASA_GRAPH, "quick": {"full": "0"}, "thorough": {"full": "1"}, "extra": {"maxpaths": 2000000}}
+_graph_text = " ASA VPN object graph (asa.VerifASAGraph): device and target assembled from solver-selected blocks (VPN user -> group-policy of two commands -> vpn-filter ACL of 2..3 lines and address pool; left-over generated group-policy chain; manually created ldap attribute-map + aaa-server, group-policy and tunnel-group referencing generated or manual objects), parsed by the real parser, planned by the real GetChanges (diffConfig, addCmds, delCmds, deleteUnused, markDeleted), executed on a text-level ASA store that enforces referential integrity and sub-mode rules; anchors must expand to the same name-free content as the target, objects outside Netspoc's scope must stay byte-identical, second compare silent."
 NSX = M + "/pkg/nsx.VerifNSX"
 
 PROPS["C01"] = {
     "explanation": _cisco_level + " C01 (ASA): interface ACL with plain lines and lines referencing network object-groups (solver-chosen members), device groups with generated names, left-over generated group, unmanaged group; the script is executed on an ASA model ('line N' inserts/deletes, joined moves, object-group member edits, transfers with fresh -DRC- names, rebinding of access-group, clear configure); final ACL must filter like the target with groups expanded, second compare silent, 'no change' only for an equivalent device.",
     "bounds": {"quick": "ASA: 1 interface ACL, device lines n<=2, target lines 1<=m<=2, 6 plain lines + permit/deny lines referencing 1 object-group per side with 1..2 members of 3 hosts, left-over generated group, unmanaged group, 8 packet classes",
                "thorough": "as quick with 2 object-groups per side (group reuse, identical groups, split groups); n,m<=3 with 1 group"},
-    "outside": "routes, crypto maps, tunnel-groups, group-policies, users, pools, certificate maps (VPN object graph), service/protocol object-groups, several ACLs and interfaces, IPv6, sizes above the bounds, real device behaviour beyond the model's rules",
+    "outside": "routes, crypto maps, certificate maps, tunnel-group-map / webvpn anchors, VPN objects beyond the one user chain of the graph harness, service/protocol object-groups, several ACLs and interfaces, IPv6, sizes above the bounds, real device behaviour beyond the model's rules",
     "selftest": "asa_(acl|parse)", "selftest_thorough": "asa_",
     "runs": [
         {"entry": ASA_ACL, "quick": {"N": "2", "K": "6", "G": "1"}, "thorough": {"N": "2", "K": "6", "G": "2"},
          "extra": {"maxpaths": 3000000},
          "covers": ["move emitted (joined delete+add)", "object-group membership edited", "changes emitted", "no change reported"]},
         {"entry": ASA_ACL, "quick": {"N": "1", "K": "8", "G": "1"}, "thorough": {"N": "3", "K": "6", "G": "1"}, "extra": {"maxpaths": 3000000}},
+        dict(_graph_run, covers=["managed VPN user on device", "VPN user in target", "changes emitted", "no change reported"]),
     ],
 }
+PROPS["C01"]["explanation"] += _graph_text
 PROPS["C04"] = {
     "explanation": "Bounded symbolic execution (gosx) of the real nsx.diffConfig -> sortGroups, addNewServices, genUniqGroupNames, diffPolicies, genUniqRuleNames, sortRules, (rulesPair).Equal/diffRules (myers.Diff), adaptGroup, findGroupOnDevice, equalizeGroups, writeRule, removeUnusedServices/Groups on NsxConfig structures with solver-chosen rule fields and group address lists; JSON bodies are kept structurally (Blob) by the json stub; the REST calls are executed on a model of the manager; resulting rules must equal the target's with groups compared by address set, no left-over Netspoc service/group, second compare silent.",
     "bounds": {"quick": "1 policy, n,m<=2 rules per side (action, source literal or group), 1 group id per side with 1..2 of 4 addresses, service changed in place, unused Netspoc group on device, one sequence number",
@@ -125,17 +130,21 @@ PROPS["C04"] = {
 }
 PROPS["C07"] = {
     "explanation": "Frame assertions inside the ASA and NSX converge harnesses (bounded symbolic execution of the real GetChanges / diffConfig): an object-group whose name lacks the generated-name tag and that no managed object references must survive the script textually unchanged and no emitted command may name it (ASA); no emitted REST call may address an id without the Netspoc prefix (NSX).",
-    "bounds": {"quick": "as C01 quick (ASA, unmanaged object-group present/absent) and C04 quick (NSX URLs)", "thorough": "as C01/C04 thorough"},
-    "outside": "IOS unknown interfaces/VRFs, ASA ACLs of unknown interfaces, aaa-server / ldap attribute-map / interface definitions, unmanaged objects referenced from managed ones, PAN-OS vsys scoping, NSX LoadDevice filter (getRawJSON)",
+    "bounds": {"quick": "as C01 quick (ASA, unmanaged object-group present/absent), C04 quick (NSX URLs), ASA object graph with up to 3 manually created referrers (about 28 000 block combinations)", "thorough": "as C01/C04 thorough; object graph with banner variants (about 55 000 combinations)"},
+    "outside": "IOS unknown interfaces/VRFs, ASA ACLs of unknown interfaces, crypto maps, unmanaged objects referenced from managed ones, PAN-OS vsys scoping, NSX LoadDevice filter (getRawJSON)",
     "selftest": "asa_parse", 
     "runs": [
         {"entry": ASA_ACL, "quick": {"N": "2", "K": "6", "G": "1"}, "thorough": {"N": "2", "K": "6", "G": "2"}, "extra": {"maxpaths": 3000000}},
         {"entry": NSX, "quick": {"N": "2", "G": "1", "seqs": "1"}, "thorough": {"N": "2", "G": "2", "seqs": "1"}, "extra": {"maxpaths": 5000000}},
+        dict(_graph_run, covers=["protected object checked", "unmanaged ldap attribute-map on device", "unmanaged tunnel-group on device", "unmanaged group-policy on device", "left-over generated group-policy on device"]),
     ],
 }
+PROPS["C07"]["explanation"] += _graph_text
 for _p in ("C08", "C14"):
     PROPS[_p]["runs"] = PROPS[_p]["runs"] + [
         {"entry": ASA_ACL, "quick": {"N": "2", "K": "6", "G": "1"}, "thorough": {"N": "2", "K": "6", "G": "2"}, "extra": {"maxpaths": 3000000}}]
+PROPS["C08"]["runs"] = PROPS["C08"]["runs"] + [_graph_run]
+PROPS["C08"]["explanation"] += _graph_text
 PROPS["C08"]["runs"] = PROPS["C08"]["runs"] + [
     {"entry": NSX, "quick": {"N": "2", "G": "1", "seqs": "1"}, "thorough": {"N": "2", "G": "2", "seqs": "1"}, "extra": {"maxpaths": 5000000}}]
 PROPS["C10"]["runs"] = PROPS["C10"]["runs"] + [
